@@ -4,6 +4,7 @@ import PsiProofs.Helper.C01_Env
 import PsiProofs.Helper.C01_Gate
 import PsiProofs.Helper.C01_Square
 import PsiProofs.Helper.C01_Stim
+import PsiProofs.Helper.C01_Repeat
 /-!
 # C01 — stimulus generators are chunk-invariant
 
@@ -71,6 +72,27 @@ theorem squarewave_fragment_eq_slice {α : Type} [Sample α] (cycle on : Nat) (h
 
 example : squareWaveNext 4 2 (Cell.c .high 1) 3 7
     = [.z, .c .high 1, .c .high 1, .z, .z, .c .high 1, .c .high 1] := by decide
+
+/-- `repeat()`: `(n + skip) * period` samples; sample `k` is waveform sample `k % period - delay`
+inside the occupied part of every non-skipped period and zero elsewhere. -/
+theorem repeat_eq_spec {α : Type} [Sample α] (p : RepP) (w l : List α) (h : repeatWave p w = .ok l) :
+    l.length = (p.n + p.skip) * p.period ∧ ∀ k, fixedAt l k = repeatAt p w k :=
+  repeatWave_spec p w l h
+
+example : repeatWave ⟨2, 1, 4, 1⟩ [Cell.a .carrier 0 0, .a .carrier 0 1]
+    = .ok [.z, .z, .z, .z, .z, .a .carrier 0 0, .a .carrier 0 1, .z, .z, .a .carrier 0 0, .a .carrier 0 1, .z] := rfl
+
+/-- `repeat()` refuses exactly the waveforms that do not fit between the delay and the period end. -/
+theorem repeat_rejects_iff {α : Type} [Sample α] (p : RepP) (w : List α) :
+    repeatWave p w = .error .valueError ↔ p.period < w.length + p.delay := by
+  unfold repeatWave
+  constructor
+  · intro h
+    split at h
+    · omega
+    · cases h
+  · intro h
+    rw [if_pos (by omega)]
 
 /-! ## Closure: the shapes of all factories are chunk-invariant -/
 
